@@ -94,9 +94,9 @@ JumpiStep(prog, at, t, cnd) == JumpiStepV(ValidDests(prog), at, t, cnd)
 \* ------------------------------------------------------------------------ probe programs
 \* What the harness runs on the real interpreter: a fixed-size header that pushes the target
 \* (and a condition) with PUSH32 -- or loads it from the call data -- and jumps, followed by the
-\* enumerated code.  Validity is that
-\* of the WHOLE program.  `d` is the value of the 32 immediate bytes; by DataIsIrrelevant
-\* below the valid set does not depend on it, which is what lets one printed set serve all targets.
+\* enumerated code.  Validity is that of the WHOLE program.  `d` is the value of the 32 immediate
+\* bytes; by DataIsIrrelevant below the valid set does not depend on it, which is what lets one
+\* printed set serve all targets.
 Fill(d)        == [k \in 1..32 |-> d]
 HdrJump(d)     == <<PUSH32>> \o Fill(d) \o <<JUMP>>                               \* 34 bytes
 HdrJumpi(d)    == <<PUSH32>> \o Fill(d) \o <<PUSH32>> \o Fill(d) \o <<JUMPI>>     \* 67 bytes
